@@ -38,11 +38,19 @@ def run(chk):
     # roles, taken from the code: the previous iterate is the local vector that starts as a copy of state.x, the trial point is the output argument of the projection
     projp = [p_ for p_ in fn.params() if "ProjectionFunction" in p_["t"]]
     pjc = [c for c in fn.walk() if c.get("k") == "CXXOperatorCallExpr" and c.get("op") == "()" and projp and var_of(c["c"][1]) == projp[0]["did"]]
-    prevd = [d for d in fn.locals().values() if d.get("k") == "VarDecl" and d.get("c") and txt(strip(d["c"][0])) == "state.x" and "vector" in (d.get("t") or "")]
-    if len(pjc) != 1 or len(prevd) != 1:
-        raise AnalysisBroken("GradientDescent: expected one call of the projection and one local copy of state.x (found %d / %d)" % (len(pjc), len(prevd)))
+    if len(pjc) != 1:
+        raise AnalysisBroken("GradientDescent: expected one call of the projection (found %d)" % len(pjc))
     TRIAL = txt(strip(pjc[0]["c"][3]))
-    PREV = prevd[0]["name"]
+    # the previous iterate: the one local, other than the trial point, that is exchanged with state.x
+    others = set()
+    for n_ in fn.walk():
+        if n_.get("k") == "CallExpr" and callee(n_) == "std::swap":
+            a_ = [txt(strip(z)) for z in call_args(n_)[:2]]
+            if "state.x" in a_:
+                others |= {t_ for t_ in a_ if t_ not in ("state.x", TRIAL)}
+    if len(others) != 1:
+        raise AnalysisBroken("GradientDescent: expected one local besides the trial point that is exchanged with state.x (found %s)" % sorted(others))
+    PREV = others.pop()
 
     def transfer(st, blk):
         for e in blk["e"]:
